@@ -646,6 +646,10 @@ pub struct World {
     pub injected: bool,
     /// markers of calls whose caller went away mid-wait, and of streams dropped without finish()
     pub cancelled_markers: BTreeSet<String>,
+    /// message IDs of the last two frames the server emitted (the order in which the driver met
+    /// the most recent frames: part of the canonical state, so that anything the driver might
+    /// remember about "the previous frame" keeps states apart)
+    pub last_emitted: (i64, i64),
 }
 
 /// the ID table through the probe handle; (-1, []) if the table's mutex is poisoned (a panic
@@ -711,6 +715,7 @@ impl World {
             timed_out_unsent: BTreeSet::new(),
             injected: false,
             cancelled_markers: BTreeSet::new(),
+            last_emitted: (-1, -1),
             scn,
         }
     }
@@ -1180,6 +1185,7 @@ impl World {
     fn push_frame(&mut self, m: &Msg) {
         let bytes = m.encode();
         *self.emitted.entry(m.id).or_insert(0) += 1;
+        self.last_emitted = (self.last_emitted.1, m.id);
         let mut io = self.io.lock().unwrap();
         if self.scn.byte_mode {
             io.staged.extend(bytes.iter().copied());
@@ -2162,7 +2168,8 @@ impl World {
         // nothing be left of it
         for m in &self.cancelled_markers {
             let seen: Vec<&SReq> = self.server.reqs.iter().filter(|r| r.marker == *m).collect();
-            if seen.is_empty() || seen.iter().any(|r| !r.done && !r.abandoned) {
+            // (a request the server has not seen at a quiescent point never will be seen)
+            if seen.iter().any(|r| !r.done && !r.abandoned) {
                 return;
             }
         }
@@ -2364,7 +2371,7 @@ impl World {
             self.viol.len(),
             self.injected
         );
-        let _ = write!(s, "RT{:?}U{:?}X{:?}", self.routed, self.timed_out_unsent, self.cancelled_markers);
+        let _ = write!(s, "RT{:?}U{:?}X{:?}L{:?}", self.routed, self.timed_out_unsent, self.cancelled_markers, self.last_emitted);
         s
     }
 
